@@ -331,3 +331,73 @@ fn deep_limits(cx: &mut Ctx) {
         }
     }
 }
+
+// ---- deep_copy and host objects ------------------------------------------------------------------------------
+// `KotoCopy::deep_copy` is documented as "how the object should behave when called from koto.deep_copy";
+// an object that owns a list and implements it must come out of `deep_copy` with a list of its own.
+
+#[derive(Clone)]
+struct Holder {
+    inner: KList,
+}
+
+impl KotoType for Holder {
+    fn type_static() -> &'static str {
+        "Holder"
+    }
+    fn type_string(&self) -> KString {
+        "Holder".into()
+    }
+}
+
+impl KotoCopy for Holder {
+    fn copy(&self) -> KObject {
+        KObject::from(self.clone())
+    }
+    fn deep_copy(&self) -> KObject {
+        let inner = match KValue::List(self.inner.clone()).deep_copy() {
+            Ok(KValue::List(l)) => l,
+            _ => self.inner.clone(),
+        };
+        KObject::from(Holder { inner })
+    }
+}
+
+impl KotoAccess for Holder {}
+impl KotoObject for Holder {}
+
+fn host_object_deep_copy(cx: &mut Ctx) {
+    for nested_in_list in [false, true] {
+        let inner = KList::from_slice(&[KValue::Number(1.into())]);
+        let obj = KValue::Object(KObject::from(Holder { inner: inner.clone() }));
+        let src = if nested_in_list { KValue::List(KList::from_slice(&[obj])) } else { obj };
+        let key = format!("deep_copy host object nested_in_list={}", nested_in_list);
+        cx.rep.case(&key, true);
+        cx.rep.bump("pool=deep_copy_host_object");
+        let shared = kvh::catch(|| {
+            let copy = src.deep_copy().ok()?;
+            let o = match &copy {
+                KValue::Object(o) => o.clone(),
+                KValue::List(l) => match l.data().first() {
+                    Some(KValue::Object(o)) => o.clone(),
+                    _ => return None,
+                },
+                _ => return None,
+            };
+            let h = o.cast::<Holder>().ok()?;
+            // mutate through the original, observe through the copy
+            inner.data_mut().push(KValue::Null);
+            Some(h.inner.is_same_instance(&inner) || h.inner.len() != 1)
+        });
+        match shared {
+            Ok(Some(false)) => {}
+            Ok(Some(true)) => cx.d_or_known(
+                "deep_copy_disjoint(host object)",
+                Some("F-C14-4"),
+                json!({"kind": "host_object", "nested_in_list": nested_in_list,
+                       "note": "the list owned by a host object that implements KotoCopy::deep_copy is shared between the value and its deep copy"}),
+            ),
+            other => cx.d_violation("deep_copy_disjoint(host object)", json!({"kind": "host_object", "nested_in_list": nested_in_list, "outcome": format!("{:?}", other)})),
+        }
+    }
+}
